@@ -172,6 +172,25 @@ class Check(AddCheck):
                 for d in docs:
                     text = to_text(d)
                     want = impl.run_add(ro_text, text)
+                    # ... and through a collection built from strs whose XML declaration names another encoding (it means
+                    # nothing for a str): what is carried arrives as sent
+                    from mosromgr.moscollection import MosCollection
+                    for enc in ('ISO-8859-1', 'UTF-16'):
+                        decl = '<?xml version="1.0" encoding="%s"?>' % enc
+                        n += 1
+                        try:
+                            with warnings.catch_warnings():
+                                warnings.simplefilter('ignore')
+                                mc = MosCollection.from_strings([decl + text, decl + ro_text], allow_incomplete=True)
+                                mc.merge()
+                            got = X.elem_to_tree(mc.ro.xml)
+                        except Exception as e:
+                            got = 'raises ' + impl.ename(e)
+                        if got != want.get('tree'):
+                            res['violations'].append({'what': '%s in a collection built from strs declaring %s: what arrives in the running order is not what the message brings when added directly (%s)'
+                                                              % (d[3].tag, enc, got if isinstance(got, str) else 'content differs'),
+                                                      'case': {'kind': 'file-source', 'ro': ro_text, 'msg': text, 'encoding': 'collection:' + enc},
+                                                      'impl': str(got)[:300], 'expected': 'the tree of the merge of the parsed str'})
                     for enc in ('iso-8859-1', 'windows-1252', 'utf-16', 'utf-8-sig'):
                         path = os.path.join(tmp, 'm.mos.xml')
                         decl = '' if enc == 'utf-8-sig' else '<?xml version="1.0" encoding="%s"?>' % enc
@@ -210,6 +229,17 @@ class Check(AddCheck):
         import shutil
         from mosromgr.mostypes import RunningOrder, MosFile
         enc = case['encoding']
+        if enc.startswith('collection:'):
+            from mosromgr.moscollection import MosCollection
+            decl = '<?xml version="1.0" encoding="%s"?>' % enc.split(':')[1]
+            want = impl.run_add(case['ro'], case['msg'])
+            try:
+                mc = MosCollection.from_strings([decl + case['msg'], decl + case['ro']], allow_incomplete=True)
+                mc.merge()
+                got = X.elem_to_tree(mc.ro.xml)
+            except Exception as e:
+                got = 'raises ' + impl.ename(e)
+            return {'violation': got != want.get('tree'), 'encoding': enc}
         decl = '' if enc == 'utf-8-sig' else '<?xml version="1.0" encoding="%s"?>' % enc
         tmp = tempfile.mkdtemp(prefix='mosverif-c04-')
         try:
